@@ -342,6 +342,25 @@ pub fn respawn_fault_family(tier: Tier) -> Vec<(Sc, Vec<Bounds>)> {
 			}
 		}
 	}
+	// history after the failed respawn: two further operations (what the failure left behind —
+	// a "retry" flag, a stale timer — may only act on the second one, after an ordinary
+	// operation has brought the job back to a healthy running state), default schedule
+	let hist: &[Op] = match tier {
+		Tier::Quick => &[Op::Start, Op::Stop, Op::Restart, Op::TryRestart, Op::TryGRestart],
+		Tier::Thorough => &[Op::Start, Op::Stop, Op::SigKill, Op::Restart, Op::TryRestart, Op::GRestart, Op::TryGRestart, Op::GStop],
+	};
+	for g in [Op::TryGRestart, Op::GRestart, Op::TryRestart, Op::Restart] {
+		for post in seqs(hist, 2) {
+			let mut s = vec![Op::Start, g];
+			s.extend(post);
+			for r in reacts_for(&s).into_iter().filter(|r| matches!(tier, Tier::Thorough) || matches!(r, React::Ignore | React::ExitNow)) {
+				let mut sc = Sc::base(one_sender(&s), r, 2);
+				sc.spawn_fail_at = Some(2);
+				sc.errh = true;
+				out.push((sc, both(0)));
+			}
+		}
+	}
 	out
 }
 
@@ -507,6 +526,28 @@ pub fn hook_family(tier: Tier) -> Vec<(Sc, Vec<Bounds>)> {
 				continue;
 			}
 			out.push((Sc::base(one_sender(&v), r, 2), passes.clone()));
+			// the same as one burst: hook changes are ordinary controls and keep their place in
+			// the queue (a hook set or unset after a start must not overtake it)
+			let mut b = Sc::base(one_sender(&v), r, 2);
+			b.burst = true;
+			out.push((b, passes.clone()));
+		}
+	}
+	// one-shot hook around a start, and a hook change queued behind a pending start
+	for s in [
+		vec![Op::SetHook, Op::Start, Op::UnsetHook],
+		vec![Op::Start, Op::SetHook],
+		vec![Op::SetHook, Op::Start, Op::UnsetHook, Op::Restart],
+		vec![Op::Start, Op::SetHook, Op::Restart, Op::UnsetHook],
+		vec![Op::SetHook, Op::Start, Op::TryGRestart, Op::UnsetHook],
+	] {
+		for r in [React::Ignore, React::ExitNow] {
+			if r == React::ExitNow && !s.iter().any(|o| o.is_graceful()) {
+				continue;
+			}
+			let mut b = Sc::base(one_sender(&s), r, 2);
+			b.burst = true;
+			out.push((b, [both(0), both(1)].concat()));
 		}
 	}
 	out
